@@ -560,6 +560,18 @@ def v_reward_split_outputs(world, pid, rng):
     return world.mine(blk, fix_merkle=True), ({"reward"} if over else set()), set()
 
 
+def v_reward_with_top_bit_amount(world, pid, rng):
+    """reward outputs [bound + k, 2^64 - k]: as unsigned numbers far above the bound; a codec that read amounts as signed
+    would see [bound + k, -k]"""
+    h = world.chain.blocks[pid].height + 1
+    k = rng.choice([1, 1, 5, ref.subsidy(h), ref.MAX_SASHIMI - ref.subsidy(h) + 1])
+    blk = world.draft(pid, [], world.chain.blocks[pid].ts + 60, rng.choice(world.keys)[1])
+    outs = [(ref.subsidy(h) + k, rng.choice(world.keys)[1]), ((1 << 64) - k, rng.choice(world.keys)[1])]
+    rng.shuffle(outs)
+    blk.txs[0] = ref.RTx(blk.txs[0].inputs, outs)
+    return world.mine(blk, fix_merkle=True), {"reward"}, set()
+
+
 C02_CLASSES = {
     "reward-exactly-at-bound": v_reward_exact, "reward-below-bound": v_reward_below, "reward-plus-one": v_reward_plus_one,
     "reward-claims-fee-of-absent-transaction": v_reward_claims_absent_fee,
@@ -569,7 +581,7 @@ C02_CLASSES = {
     "two-reward-transactions": v_two_rewards, "reward-not-first": v_reward_not_first,
     "reward-two-null-inputs": v_reward_two_null_inputs, "reward-references-real-output": v_reward_references_real_output,
     "reward-without-coinbase-data": v_reward_without_coinbase_data, "reward-split-outputs": v_reward_split_outputs,
-    "valid-spend": c_valid_spend, "valid-multi": c_valid_multi,
+    "valid-spend": c_valid_spend, "valid-multi": c_valid_multi, "reward-with-top-bit-amount": v_reward_with_top_bit_amount,
 }
 
 
@@ -618,6 +630,14 @@ class Stream:
         c = self.c
         cs = world.cs
         real = bridge.rblock_to_real(rblk)
+        if (c["attempts"] + len(cls)) % 2:
+            # every other candidate is decoded from its bytes, as it would arrive from a peer or from the store
+            try:
+                from skepticoin.datatypes import Block
+                real = Block.deserialize(rblk.enc())
+                c["candidates_decoded_from_bytes"] = c.get("candidates_decoded_from_bytes", 0) + 1
+            except Exception:
+                pass
         codes = ref.block_codes(world.chain, rblk, now)
         if must is not None and not (must <= codes and codes <= (must | (may or set()))):
             c["class_generation_mismatch"][cls] = c["class_generation_mismatch"].get(cls, 0) + 1
